@@ -125,6 +125,8 @@ def run_case(case):
     d = run.diff(a, c, KEYS_ALL)
     if d:
         bad("collect() vs fast_forward()", d)
+    if b["exc"] is None and b.get("next_objects_after_the_run") != b["lines"]:
+        bad("a line yielded by next() was changed after it had been yielded", [("lines", b.get("next_objects_after_the_run"), b["lines"])])
     states.append(run.h64([a[k] for k in KEYS_ALL]))
     nruns = 3
     full = a["lines"]
